@@ -5,6 +5,7 @@ defined for (right after constructing an instance of that class; interleavings a
 from hypothesis import strategies as st
 
 from pbt import cmds, common, gen
+from pbt.stdspec import cdb as S
 from pbt.common import expect, lib
 from pbt.props.c01_cdb_wire import LIB_FIELD_OF_ARG
 
@@ -34,9 +35,19 @@ def setup(ctx):
 
 def layout_of(cmd):
     out = {}
+    n = S.CDB[cmd.std]["length"]
+    std = [(8 * b + 7 - msb, width) for (b, msb, width) in S.CDB[cmd.std]["fields"].values()]
     for k, v in cmd.cls._cdb_bits.items():
         mask, off = v
         w = bin(mask).count("1")
+        # the values a field takes come from the width the standard gives the field at this place (the
+        # independent model), not from the class's own mask: a mask that lost or gained a bit must not
+        # shrink or stretch the domain it is tested on
+        absmask = field_bits(mask, off, n)
+        start = 8 * n - absmask.bit_length()
+        best = max(std, key=lambda f: max(0, min(start + w, f[0] + f[1]) - max(start, f[0])), default=None)
+        if best is not None and min(start + w, best[0] + best[1]) - max(start, best[0]) > 0:
+            w = best[1]
         out[k] = (mask, off, w)
     return out
 
